@@ -14,7 +14,7 @@ from .. import gen as G
 
 FILES = ["a.py", "b.js", "src/a.py", "src/c.ts", "src/deep/e.java", "lib/f.c", "lib/g.cpp", "K.cs",
          "tests/t.py", ".hid/x.py", "notes.txt", "src/m.py", "lib/b.js", "lib/h.h", "src/deep/i.hpp"]
-WEIRD = ['we"ird.py', "back\\slash.py", "café.py", "sp ace.js", "cafe\u0301.py", "caf\udce9.py", "-dash.py", "files.py"]
+WEIRD = ['we"ird.py', "back\\slash.py", "café.py", "sp ace.js", "cafe\u0301.py", "caf\udce9.py", "caf\udce8.py", "-dash.py", "files.py"]
 DIR_MOVES = [("src", "pkg"), ("lib", "src/lib"), ("src/deep", "deep"), ("pkg", "src"), ("src", "tests")]
 SHAPES = ("one2", "one16", "one31", "one61", "multi", "nested", "strings", "enc_latin1", "multi_ws", "empty", "one30",
           "big", "uni", "twins", "nocl", "bare31")
